@@ -86,7 +86,7 @@ fn op_code(ix: &mut Interner, op: &Operation) -> String {
     if op.is_prf_operation() {
         return format!("p.{}", ix.id("op", format!("{:?}", op)));
     }
-    if op.is_randomizing().unwrap_or(false) {
+    if is_rand(op) {
         return format!("r.{}", ix.id("op", format!("{:?}", op)));
     }
     match op {
@@ -168,7 +168,7 @@ fn oracle_table(ix: &mut Interner, g: &Graph) -> String {
     let mut out = vec![];
     for n in g.get_nodes() {
         let op = n.get_operation();
-        if op.is_input() || op.is_randomizing().unwrap_or(true) {
+        if op.is_input() || is_rand(&op) || matches!(op, Operation::Call | Operation::Iterate | Operation::Custom(_)) {
             continue;
         }
         let deps = n.get_node_dependencies();
@@ -256,8 +256,9 @@ fn gen_inputs(rng: &mut Rng, types: &[Type]) -> Vec<Value> {
         .collect()
 }
 
+/// the harness's OWN classification of randomising operations (graphs.rs predicates are under test)
 fn is_rand(op: &Operation) -> bool {
-    op.is_randomizing().unwrap_or(false)
+    matches!(op, Operation::Random(_) | Operation::RandomPermutation(_) | Operation::CuckooToPermutation | Operation::DecomposeSwitchingMap(_))
 }
 
 /// evaluate node by node; `forced(node)` supplies the value of a randomising node (None = draw)
@@ -702,9 +703,44 @@ impl<'a> Gen<'a> {
                 }
             }
             26 => {
-                let t = self.rng.pick(&Self::arith_types()).clone();
-                let n = g.random(t)?;
-                self.push(n, "random");
+                if self.rng.chance(2, 3) {
+                    let t = self.rng.pick(&Self::arith_types()).clone();
+                    let n = g.random(t)?;
+                    self.push(n, "random");
+                } else {
+                    // randomising permutation helpers, twice on the same constant table: each evaluation
+                    // of each node must draw its own completion (never merged, never folded)
+                    let mut table = vec![u64::MAX; 16];
+                    table[1] = 2;
+                    table[6] = 0;
+                    table[7] = 3;
+                    table[12] = 1;
+                    match self.rng.below(3) {
+                        0 => {
+                            let src = g.constant(array_type(vec![16], UINT64), Value::from_flattened_array(&table, UINT64)?)?;
+                            self.nodes.push(src.clone());
+                            let a = src.cuckoo_to_permutation()?;
+                            self.push(a, "cuckoo-to-permutation");
+                            let b = src.cuckoo_to_permutation()?;
+                            self.push(b, "cuckoo-to-permutation");
+                        }
+                        1 => {
+                            let smap: Vec<u64> = vec![1, 4, 4, 5, 7, 2, 4, 1];
+                            let src = g.constant(array_type(vec![8], UINT64), Value::from_flattened_array(&smap, UINT64)?)?;
+                            self.nodes.push(src.clone());
+                            let a = src.decompose_switching_map(16)?.tuple_get(0)?;
+                            self.push(a, "decompose-switching-map");
+                            let b = src.decompose_switching_map(16)?.tuple_get(0)?;
+                            self.push(b, "decompose-switching-map");
+                        }
+                        _ => {
+                            let a = g.random_permutation(4)?;
+                            self.push(a, "random-permutation");
+                            let b = g.random_permutation(4)?;
+                            self.push(b, "random-permutation");
+                        }
+                    }
+                }
             }
             27 => {
                 let key = match self.rng.below(3) {
